@@ -30,12 +30,20 @@ def plan(prop):
     if prop == 'C01':
         for k, closed in shapes:
             obs.append((core, lambda ctx, k=k, c=closed: co.ob_limits_gate(ctx, k, c, bits)))
+        for k, closed in [(0, True), (1, True), (1, False), (2, False)]:
+            obs.append((core, lambda ctx, k=k, c=closed: co.ob_reachable_gate(ctx, k, c, bits)))
     if prop in ('C06', 'C03', 'C05'):
         for k, closed in shapes:
             obs.append((core, lambda ctx, k=k, c=closed: co.ob_schedule_state_statistics(ctx, k, c, bits)))
     if prop == 'C05':
         for k, closed in shapes[:3]:
             obs.append((core, lambda ctx, k=k, c=closed: co.ob_capacity_gate(ctx, k, c)))
+    if prop == 'C05':
+        for n in (1, 2, 3):
+            obs.append((core, lambda ctx, n=n: co.ob_accept_route_state(ctx, n)))
+    if prop == 'C01':
+        for n in (1, 2, 3):
+            obs.append((core, lambda ctx, n=n: co.ob_evaluate_with_constraints(ctx, n)))
     if prop == 'C03':
         obs.append((core, lambda ctx: co.ob_total_cost_fold(ctx, 16, rates)))
     if prop == 'C20':
@@ -43,6 +51,10 @@ def plan(prop):
             obs.append((core, lambda ctx, k=k, c=closed: co.ob_distance_estimate(ctx, k, c, bits)))
         for k, closed in [(k, c) for k, c in shapes if k <= 2]:
             obs.append((core, lambda ctx, k=k, c=closed: co.ob_cost_estimate(ctx, k, c, 16, rates)))
+    if prop == 'C09':
+        import ieee_obligations as io
+        for n in ((1, 2) if Q else (1, 2, 3)):
+            obs.append((core, lambda ctx, n=n: io.ob_goal_order(ctx, n)))
     return obs
 
 
